@@ -124,6 +124,9 @@ def _all():
         _v("d_us", "datetime.datetime(2013, 1, 1, 0, 0, 0, 250000)", ["dt"]),
         _v("d_530", "datetime.datetime(2014, 6, 7, 8, 9, 10, tzinfo=datetime.timezone(datetime.timedelta(hours=5, minutes=30)))", ["dt"]),
         _v("d_530_as_utc", "datetime.datetime(2014, 6, 7, 2, 39, 10, tzinfo=datetime.timezone.utc)", ["dt"]),
+        _v("d_us_530", "datetime.datetime(2014, 6, 7, 8, 9, 10, 120000, tzinfo=datetime.timezone(datetime.timedelta(hours=5, minutes=30)))", ["dt"]),
+        _v("d_us_utc", "datetime.datetime(2015, 1, 1, 12, 0, 0, 500000, tzinfo=datetime.timezone.utc)", ["dt"]),
+        _v("d_neg0330", "datetime.datetime(2014, 6, 7, 8, 9, 10, tzinfo=datetime.timezone(-datetime.timedelta(hours=3, minutes=30)))", ["dt"]),
         _v("d_utc", "datetime.datetime(2015, 1, 1, 12, 0, 0, tzinfo=datetime.timezone.utc)", ["dt"]),
         # URIs
         _v("u_plain", "Identifier('http://c/res')", ["uri", "basic"]),
@@ -156,6 +159,7 @@ def _all():
         QNameVal("q_fooC", ("C", "v", ("q", "foo"))),
         QNameVal("q_defA", ("A", "v", ("q", ""))),
         QNameVal("q_defB", ("B", "v", ("q", ""))),
+        QNameVal("q_colon", ("A", "v:1", ("q", "ex"))),
         QNameVal("q_prov", ("P", "Person", ("q", "prov"))),
         QNameVal("q_provPlan", ("P", "Plan", ("q", "prov"))),
         QNameVal("q_provRevision", ("P", "Revision", ("q", "prov"))),
